@@ -333,8 +333,13 @@ def drive_and_judge(run, label, items, families, driver='harness.drivers.d_tree'
     os.makedirs(wd, exist_ok=True)
     inp, outp = os.path.join(wd, 'work.ndjson'), os.path.join(wd, 'cases.in.ndjson')
     write_work(inp, items)
-    p = run.drive(driver, [inp, outp, ','.join(families)])
+    special = 'depth' in families or 'classobj' in families
+    p = run.drive(driver, [inp, outp, ','.join(families)], timeout=420 if special else 3600, check=not special)
     if p.returncode != 0:
+        if special:
+            # the depth / class-object cases run engine code that may crash or loop forever when broken: that is a violation
+            run.violation({'kind': 'crash-or-hang', 'families': families, 'rc': p.returncode, 'stderr': p.stderr[-600:]},
+                          f'{families}: the driver crashed or did not terminate (rc={p.returncode}: {p.stderr[-120:]!r})')
         return 0
     cases = [json.loads(l) for l in open(outp)]
     for c in cases:
